@@ -217,5 +217,52 @@ def trace():
     assert len(t) == 3
     for k in range(3):
         g.add('t_tilt_%d' % k, L3 + K3, t[k])
+    # ------------------------------------------------------------------ callers that forward to rotate_point(s)
+    # which of their arguments goes to `origin`, which to `offset` is part of what is traced.  Every caller is
+    # traced twice: with symbolic tilt and centre, and untilted at the origin (literal zeros), so that the tie can
+    # state  caller(size, centre, tilt) = R(tilt) * caller(size, 0, 0) + centre  without knowing how the flat
+    # samples are laid out.
+    S2 = ['s_0', 's_1']; S3 = ['s_0', 's_1', 's_2']; C3 = ['c_0', 'c_1', 'c_2']
+    size2 = [shim.var(n) for n in S2]; size3 = [shim.var(n) for n in S3]
+    zero3 = [0., 0., 0.]
+    ns['np'].__dict__.setdefault('mgrid', _np.mgrid)            # index grids are concrete integers
+    load_module_functions('odak/tools/sample.py', ns, ['grid_sample', 'box_volume_sample'])
+    ns['rotate_points'] = keep
+    r = ns['grid_sample'](no=[2, 2], size=list(size2), center=list(cen), angles=list(ang))
+    r0 = ns['grid_sample'](no=[2, 2], size=list(size2), center=list(zero3), angles=list(zero3))
+    assert r.shape == (4, 3) and r0.shape == (4, 3), (r.shape, r0.shape)
+    for i in range(4):
+        for k in range(3):
+            g.add('n_grid_%d_%d' % (i, k), S2 + C3 + A3, r[i, k]); g.add('n_grid0_%d_%d' % (i, k), S2, r0[i, k])
+    r = ns['box_volume_sample'](no=[2, 1, 2], size=list(size3), center=list(cen), angles=list(ang))
+    r0 = ns['box_volume_sample'](no=[2, 1, 2], size=list(size3), center=list(zero3), angles=list(zero3))
+    assert r.shape == (4, 3) and r0.shape == (4, 3), (r.shape, r0.shape)
+    for i in range(4):
+        for k in range(3):
+            g.add('n_box_%d_%d' % (i, k), S3 + C3 + A3, r[i, k]); g.add('n_box0_%d_%d' % (i, k), S3, r0[i, k])
+    Q3 = ['q_0', 'q_1', 'q_2']
+    r = ns['define_plane'](shim.sym('q', (3,)), angles=list(ang))
+    r0 = ns['define_plane'](shim.wrap(list(zero3)), angles=list(zero3))
+    assert r.shape == (3, 3) and r0.shape == (3, 3)
+    for i in range(3):
+        for k in range(3):
+            g.add('n_plane_%d_%d' % (i, k), Q3 + A3, r[i, k]); g.add('n_plane0_%d_%d' % (i, k), [], r0[i, k])
+    load_module_functions('odak/learn/tools/sample.py', ns2, ['grid_sample'])
+    r, rx, ry, rz = ns2['grid_sample'](no=[2, 2], size=list(size2), center=list(cen), angles=list(ang))
+    r0 = ns2['grid_sample'](no=[2, 2], size=list(size2), center=list(zero3), angles=list(zero3))[0]
+    assert r.shape == (4, 3) and r0.shape == (4, 3), (r.shape, r0.shape)
+    for i in range(4):
+        for k in range(3):
+            g.add('t_grid_%d_%d' % (i, k), S2 + C3 + A3, r[i, k]); g.add('t_grid0_%d_%d' % (i, k), S2, r0[i, k])
+    _mat(g, 't_grid_rotx', A3, rx); _mat(g, 't_grid_roty', A3, ry); _mat(g, 't_grid_rotz', A3, rz)
+    keep_t = ns2['rotate_points']
+    load_module_functions('odak/learn/raytracing/primitives.py', ns2, ['define_plane'])
+    ns2['rotate_points'] = keep_t
+    r = ns2['define_plane'](shim.sym('q', (3,)), angles=shim.sym('a', (3,)))
+    r0 = ns2['define_plane'](shim.wrap(list(zero3)), angles=shim.wrap(list(zero3)))
+    assert r.shape == (3, 3) and r0.shape == (3, 3)
+    for i in range(3):
+        for k in range(3):
+            g.add('t_plane_%d_%d' % (i, k), Q3 + A3, r[i, k]); g.add('t_plane0_%d_%d' % (i, k), [], r0[i, k])
     g.info = info
     return g
